@@ -45,7 +45,7 @@ A CLASS-IDENTITY family stores every ordered pair of same-named classes (checks/
 different modules, a subclass named like its base, 'Outer.Params' next to 'Params', 'Param' / 'Params' / 'Params2', a namesake of
 _serial.NodeA) in one graph in every placement (the first also as the ROOT holding the second) and in two successive save/load round
 trips of one process (root/root, root/nested, nested/root; saves and loads in three orders): `type(loaded) is type(original)` at
-every node, values equal. A class nested in a class is refused loudly at load on the unchanged tree: counted, not claimed.
+every node, values equal. A class nested in a class (dotted __qualname__) loads like any other since fix finding 47.
 
 Excluded from the input alphabet exactly as the quantifier says: reserved metadata names, names
 containing '/' (and what zarr treats as path syntax: '\\', '.', '..'), non-native byte order and
@@ -1044,7 +1044,7 @@ def eval_history(item, seed=0, scratch="/tmp"):
 # (ii) in two successive save/load round trips of one process (root then root, root then nested, nested then root; saves and
 # loads interleaved, saves first, saves first and loads in reverse). Oracle: `type(loaded) is type(original)` at every
 # AutoSerialize node (class OBJECTS, module included), then the ordinary value equality; zip result == dir result.
-# A class nested in a class is refused loudly at load on the unchanged tree (AttributeError: the qualified name is looked up
+# A class nested in a class WAS refused at load on the pinned tree (finding 47, repaired) (AttributeError: the qualified name was looked up
 # with one getattr): such a load is counted, not flagged; if it loads, the class must be right.
 TWIN_CORE = ["a.Params", "b.Params", "c.Params(a.Params)", "a.NodeA", "s.NodeA"]  # quick: the members multiplied into every placement / session
 
@@ -1094,8 +1094,8 @@ def twin_items(quick):
 def _twin_judge(exp, st, y, label, tag, has_inner, rel="load_save_equals_input"):
     """(fails, outcome, refused) for one load against the freshly built expected graph."""
     if st != "ok":
-        if st == "load_raises" and has_inner and isinstance(y, AttributeError):
-            return [], ["inner_class_refused_at_load", type(y).__name__], 1
+        # (a class defined inside another class was refused at load on the pinned tree: finding 47, repaired; a refusal
+        # is a violation like any other load that raises)
         return [(dict(tag, relation=rel, symptom=st, exc=type(y).__name__), f"{label}: {'save(x)' if st == 'save_raises' else 'load(save(x))'} raised {type(y).__name__}: {str(y)[:200]} (expected: no exception)")], [st, type(y).__name__], 0
     outcome = [S.class_names(y), S.summary(y)]
     ci = S.class_identity_diff(exp, y)
